@@ -336,6 +336,11 @@ def near_fd_check(res, kobj, k, T, x, z, c, gi, p):
             continue
         i = cols[0]
         a = int((z[j] - x[i]).abs().argmax())
+        # the implementation's own coincidence rule works in transformed coordinates: with a diagonal transform the
+        # step may shrink below eps there, the center then counts as coinciding (its term is masked by design)
+        dt = delta * (float(T[a].abs()) if (T is not None and T.dim() == 1) else 1.0)
+        if dt < 2 * float(kobj.eps):
+            continue
         e = torch.zeros_like(z[j]); e[a] = 1.0
         Z = torch.stack([z[j] + h * e, z[j] - h * e, z[j] + h / 2 * e, z[j] - h / 2 * e])
         Kp = kobj.get_kernel_matrix(x, Z, T)                                       # (n_x, 4)
